@@ -10,6 +10,7 @@ import QV.Drive.C16
 import QV.Drive.C17
 import QV.Drive.C13
 import QV.Drive.C15
+import QV.Drive.C01
 /-! `qvdriver`: one JSON request per input line, one JSON reply per output line. -/
 open Lean
 
@@ -26,7 +27,8 @@ def dispatch (j : Json) : Except String Json := do
     QV.Drive.C16.handle,
     QV.Drive.C17.handle,
     QV.Drive.C13.handle,
-    QV.Drive.C15.handle
+    QV.Drive.C15.handle,
+    QV.Drive.C01.handle
   ]
   for h in handlers do
     if let some r := h op j then return ← r
